@@ -145,7 +145,7 @@ theorem finish_cacheStep {pl : Plug π β} {head : Nat} {st st' : St β} {c : Na
   | irrelevant hm _ hfr => exact .done hm hfr rfl rfl rfl rfl
   | plain _ _ hm => exact cacheStep_addPlain _ _ _ _ hm
   | plainMatch => exact .selected _ rfl rfl rfl rfl rfl rfl
-  | skip bpar new pb _ _ _ hm => exact cacheStep_addPlain _ _ _ _ hm
+  | skip bpar new pb pbs bumps _ _ _ hm => exact cacheStep_addPlain _ _ _ _ hm
   | build bpar new pb pbs bumps bn na => exact .selected _ rfl rfl rfl rfl rfl rfl
 
 theorem classify_none_parts {rp : Repo β} {c : Nat} (hc : classify rp c = none) :
